@@ -1,0 +1,45 @@
+//go:build verif
+
+package jsonrpc2
+
+// VerifYield, when set, is called at named points of a Connection's goroutines
+// (build tag verif only): "update" (entry of updateInFlight, before the state
+// mutex is taken), "write:before" / "write:after" (around the framed write of an
+// outgoing message, holding the writer token), "read:loop" (before each
+// Reader.Read of readIncoming), "read:msg" (a message was read), "read:exit"
+// (the read loop ended, before the final state update). It must be set before
+// any Connection is created and not changed afterwards.
+var VerifYield func(c *Connection, point string)
+
+func verifYield(c *Connection, point string) {
+	if h := VerifYield; h != nil {
+		h(c, point)
+	}
+}
+
+// VerifInFlight is a snapshot of the in-flight state of a Connection.
+type VerifInFlight struct {
+	Idle, ConnClosing, Reading, HandlerRunning, CloserPending, Done bool
+	ReadErr, WriteErr                                               error
+	OutgoingCalls, OutgoingNotifications, Incoming                  int
+	IncomingByID, HandlerQueue                                      int
+}
+
+// VerifState returns a snapshot of the in-flight state (taken under the state mutex).
+func (c *Connection) VerifState() VerifInFlight {
+	c.stateMu.Lock()
+	defer c.stateMu.Unlock()
+	s := &c.state
+	v := VerifInFlight{
+		Idle: s.idle(), ConnClosing: s.connClosing, Reading: s.reading, HandlerRunning: s.handlerRunning,
+		CloserPending: s.closer != nil, ReadErr: s.readErr, WriteErr: s.writeErr,
+		OutgoingCalls: len(s.outgoingCalls), OutgoingNotifications: s.outgoingNotifications, Incoming: s.incoming,
+		IncomingByID: len(s.incomingByID), HandlerQueue: len(s.handlerQueue),
+	}
+	select {
+	case <-c.done:
+		v.Done = true
+	default:
+	}
+	return v
+}
